@@ -381,8 +381,7 @@ func All() []Scenario {
 						}
 						info := protocol.TransformationInfo{"id": "did:sidetree:" + st.suffixes[i], "published": true}
 						r1, e1 := st.docT.TransformDocument(gone, info)
-						r2, e2 := st.didT.TransformDocument(gone, info)
-						return hashJSON([]any{gone.Deactivated, r1, fmt.Sprint(e1), r2, fmt.Sprint(e2)})
+						return hashJSON([]any{gone.Deactivated, r1, fmt.Sprint(e1)})
 					})
 					r.Call(t, "versions", func() string {
 						c, _ := st.ver.Current()
